@@ -31,7 +31,7 @@ COMPONENTS = {
     "stub_or_harness": ["history generator", "WriterModel reference model"],
 }
 PROBES = [
-    "same_string_in_both_modes", "generated_serializer_after_chunked", "second_writer_interleaved", "refusal_on_nonempty_buffer", "refusal_right_after_mode_toggle", "perfect_fit_padded",
+    "same_string_in_both_modes", "generated_serializer_after_chunked", "generated_plain_struct_in_both_modes", "second_writer_interleaved", "refusal_on_nonempty_buffer", "refusal_right_after_mode_toggle", "perfect_fit_padded",
     "y_diaeresis_sanitized", "y_diaeresis_unsanitized", "to_bytearray_is_copy", "refusal_far_beyond_limit",
     "refusal_string_one_too_long", "refusal_string_one_too_short",
 ]
@@ -107,6 +107,27 @@ def run_generated(plan, env, res, tr):
                           f"(sanitised inside <chunked>, exact image after it) prescribes {expect.hex()}", "step": 0}
     if bool(w.string_sanitization_mode) != bool(g["entry"]):
         return {"kind": "mode", "signature": "C09|mode|generated-serializer", "detail": "serialize changed the writer's mode", "step": 0}
+    # a structure without a <chunked> section of its own (its constants contain y-diaeresis): sanitised exactly
+    # when the mode was switched on by someone else (the caller, or a <chunked> parent)
+    import inspect
+    a3 = (g["inside"] + "abc")[:3]
+    extra = {"mark": "\u00ffzz"} if "mark" in inspect.signature(net.InnerPlain.__init__).parameters else {}
+    plain = net.InnerPlain(a=a3, b=g["flag"], **extra)
+    for mode in (bool(g["entry"]), not g["entry"]):
+        w = EoWriter()
+        w.string_sanitization_mode = mode
+        m = WriterModel()
+        m.sanitize = mode
+        expect = (m.image("add_fixed_string", [a3, 3, False]) + m.image("add_short", [g["flag"]])
+                  + m.image("add_fixed_string", ["\u00ffzz", 3, False]) + m.image("add_fixed_string", ["z\u00ff", 2, False]))
+        net.InnerPlain.serialize(w, plain)
+        got = bytes(w.to_bytearray())
+        res.count("probe.generated_plain_struct_in_both_modes")
+        tr.ev("generated-plain", mode, got.hex())
+        if got != expect:
+            return {"kind": "appended-bytes", "signature": f"C09|appended-bytes|generated-serializer|sanitize={mode}",
+                    "detail": f"InnerPlain(a={a3!r}).serialize into a writer with sanitisation {'on' if mode else 'off'} wrote "
+                              f"{got.hex()}, the declaration prescribes {expect.hex()}", "step": 0}
     return None
 
 
